@@ -14,6 +14,7 @@ structure World where
   now : Nat := 0
   listeners : List (Nat × Listeners) := []
   udp : UdpSock := {}
+  uncounted : List Nat := []     -- slots whose watch channel has no permanent receiver (publications cannot be counted)
 
 def World.listenersOf (w : World) (slot : Nat) : Listeners :=
   ((w.listeners.find? (fun p => p.1 == slot)).map (·.2)).getD []
@@ -44,7 +45,7 @@ def pWindow (p : Id × Window) : String :=
   pList "w" [pId p.1, pList "" (p.2.intervals.map toString),
     match p.2.last with | some t => toString t | none => "none"]
 
-def pNode (n : Node) : String :=
+def pNode (n : Node) (hideCount : Bool := false) : String :=
   let gcm : List (Id × Nat) := n.cs.gcMemory.foldl (fun acc p => AL.insert Id.lt p.1 p.2 acc) []
   pList "node" [
     pList "copies" (n.cs.nodes.map (fun p => pList "c" [pId p.1, pNs p.2])),
@@ -53,7 +54,7 @@ def pNode (n : Node) : String :=
     pList "win" (n.fd.windows.map pWindow),
     pList "gcmem" (gcm.map (fun p => pList "g" [pId p.1, toString p.2])),
     pList "prev" (n.previousLive.map (fun p => pList "p" [pId p.1, toString p.2])),
-    pList "watch" (toString n.publishes :: n.watch.map (fun p => pList "c" [pId p.1, pNs p.2]))]
+    pList "watch" ((if hideCount then "-" else toString n.publishes) :: n.watch.map (fun p => pList "c" [pId p.1, pNs p.2]))]
 
 def rFdCfg : Sexp → Option FDConfig
   | .list [.atom "fd", a, b, c, d, e, f] =>
@@ -132,7 +133,7 @@ def ownWrite (w : World) (slot : Nat) (f : NodeState → NodeState × List Event
     let s := (cs.nodeState n.cfg.selfId).getD NodeState.empty
     let (s', evs) := f s
     let n' := { n with cs := cs.setNode n.cfg.selfId s' }
-    (w.setNode slot n', pList "ok" [pEvC w slot (evs.map (fun e => (n.cfg.selfId, e))), pNode n'])
+    (w.setNode slot n', pList "ok" [pEvC w slot (evs.map (fun e => (n.cfg.selfId, e))), pNode n' (w.uncounted.contains slot)])
 
 def pOptBytes : Option Bytes → String
   | some b => pList "some" [pBytes b]
@@ -151,7 +152,7 @@ def step (w : World) (cmd : Sexp) : World × String :=
     | some slot, some i, some cid, some grace, some fdc, some pred, some initial =>
       let cfg : Config := { selfId := i, clusterId := cid, grace := grace, fd := fdc, pred := pred }
       let (n, _) := Node.init cfg initial
-      (w.setNode slot n, pList "ok" [pNode n])
+      (w.setNode slot n, pList "ok" [pNode n (w.uncounted.contains slot)])
     | _, _, _, _, _, _, _ => bad w "new"
   | .list [.atom "set", slot, k, v] =>
     match slot.nat?, k.bytes?, v.bytes? with
@@ -173,13 +174,13 @@ def step (w : World) (cmd : Sexp) : World × String :=
     match slot.nat?.bind w.node? , slot.nat? with
     | some n, some slot =>
       let n' := n.gcKeys w.now
-      (w.setNode slot n', pList "ok" [pNode n'])
+      (w.setNode slot n', pList "ok" [pNode n' (w.uncounted.contains slot)])
     | _, _ => bad w "gc"
   | .list [.atom "setcopy", slot, i, ns] =>
     match slot.nat?.bind w.node?, slot.nat?, rId i, rNs ns with
     | some n, some slot, some i, some ns =>
       let n' := { n with cs := (n.cs.initIfAbsent i).setNode i ns }
-      (w.setNode slot n', pList "ok" [pNode n'])
+      (w.setNode slot n', pList "ok" [pNode n' (w.uncounted.contains slot)])
     | _, _, _, _ => bad w "setcopy"
   | .list [.atom "setcopyq", slot, i, ns] =>
     match slot.nat?.bind w.node?, slot.nat?, rId i, rNs ns with
@@ -195,7 +196,7 @@ def step (w : World) (cmd : Sexp) : World × String :=
     match slot.nat?.bind w.node?, slot.nat? with
     | some n, some slot =>
       let n' := n.updateSelfHeartbeat
-      (w.setNode slot n', pList "ok" [pNode n'])
+      (w.setNode slot n', pList "ok" [pNode n' (w.uncounted.contains slot)])
     | _, _ => bad w "selfhb"
   | .list [.atom "msg", slot, m, order, oracle] =>
     match slot.nat?.bind w.node?, slot.nat?, rMsg m, rIds order, rOracle oracle with
@@ -203,7 +204,7 @@ def step (w : World) (cmd : Sexp) : World × String :=
       match n.processMessage (oracleCompressor oracle) m w.now order with
       | .error e => (w, pPanic e)
       | .ok (n', fx) =>
-        (w.setNode slot n', pList "ok" [pEffects w slot fx, pWire (oracleCompressor oracle) fx.reply, pNode n'])
+        (w.setNode slot n', pList "ok" [pEffects w slot fx, pWire (oracleCompressor oracle) fx.reply, pNode n' (w.uncounted.contains slot)])
     | _, _, _, _, _ => bad w "msg"
   | .list [.atom "msglite", slot, m, order, oracle] =>
     match slot.nat?.bind w.node?, slot.nat?, rMsg m, rIds order, rOracle oracle with
@@ -217,7 +218,7 @@ def step (w : World) (cmd : Sexp) : World × String :=
     match slot.nat?.bind w.node?, slot.nat? with
     | some n, some slot =>
       let n' := n.updateNodesLiveness w.now
-      (w.setNode slot n', pList "ok" [pList "sched" ((n'.scheduledForDeletion w.now).map pId), pNode n'])
+      (w.setNode slot n', pList "ok" [pList "sched" ((n'.scheduledForDeletion w.now).map pId), pNode n' (w.uncounted.contains slot)])
     | _, _ => bad w "live"
   | .list [.atom "catchup", slot, i, kvs, mx, gc] =>
     match slot.nat?.bind w.node?, slot.nat?, rId i, (rTagged kvs).bind (mapM? rKv), mx.nat?, gc.nat? with
@@ -226,7 +227,7 @@ def step (w : World) (cmd : Sexp) : World × String :=
         | .set => .set | .deleted _ => .deleted w.now | .ttl _ => .ttl w.now } : VV)))
       match n.resetNodeStateIfUpdate i kvs mx gc with
       | .error e => (w, pPanic e)
-      | .ok (n', evs) => (w.setNode slot n', pList "ok" [pEvC w slot evs, pNode n'])
+      | .ok (n', evs) => (w.setNode slot n', pList "ok" [pEvC w slot evs, pNode n' (w.uncounted.contains slot)])
     | _, _, _, _, _, _ => bad w "catchup"
   | .list [.atom "rmcopy", slot, i, remember] =>
     match slot.nat?.bind w.node?, slot.nat?, rId i, remember.nat? with
@@ -236,7 +237,7 @@ def step (w : World) (cmd : Sexp) : World × String :=
       let fd : FD := { n.fd with windows := AL.erase i n.fd.windows, dead := AL.erase i n.fd.dead,
                                  live := n.fd.live.filter (fun j => !(j == i)) }
       let n' := { n with cs := cs, fd := fd }
-      (w.setNode slot n', pList "ok" [pNode n'])
+      (w.setNode slot n', pList "ok" [pNode n' (w.uncounted.contains slot)])
     | _, _, _, _ => bad w "rmcopy"
   | .list [.atom "converged"] =>
     let owners := w.nodes.map (fun p => (p.2.cfg.selfId, p.2.selfState.maxVersion))
@@ -297,7 +298,7 @@ def step (w : World) (cmd : Sexp) : World × String :=
     match slot.nat?.bind w.node?, slot.nat?, rId i, hb.nat? with
     | some n, some slot, some i, some hb =>
       let n' := n.reportHeartbeat i hb w.now
-      (w.setNode slot n', pList "ok" [pNode n'])
+      (w.setNode slot n', pList "ok" [pNode n' (w.uncounted.contains slot)])
     | _, _, _, _ => bad w "hb"
   | .list [.atom "delta", slot, dg, mtu, sched, order, oracle] =>
     match slot.nat?.bind w.node?, rDigest dg, mtu.nat?, rIds sched, rIds order, rOracle oracle with
@@ -325,7 +326,7 @@ def step (w : World) (cmd : Sexp) : World × String :=
       match n.processDelta delta w.now with
       | .error e => (w, pPanic e)
       | .ok (n', cb, evs) =>
-        (w.setNode slot n', pList "ok" [toString cb, pEvC w slot evs, pNode n'])
+        (w.setNode slot n', pList "ok" [toString cb, pEvC w slot evs, pNode n' (w.uncounted.contains slot)])
     | _, _, _ => bad w "apply"
   | .list [.atom "reads", slot, i, keys, pfxs] =>
     match slot.nat?.bind w.node?, rId i, (rTagged keys).bind (mapM? Sexp.bytes?),
@@ -343,7 +344,7 @@ def step (w : World) (cmd : Sexp) : World × String :=
     | _, _, _, _ => bad w "reads"
   | .list [.atom "dump", slot] =>
     match slot.nat?.bind w.node? with
-    | some n => (w, pNode n)
+    | some n => (w, pNode n (w.uncounted.contains (slot.nat?.getD 0)))
     | none => bad w "dump"
   | .list [.atom "enc", m, oracle] =>
     match rMsg m, rOracle oracle with
@@ -370,6 +371,10 @@ def step (w : World) (cmd : Sexp) : World × String :=
       | none => (w, "(err)")
       | some (m, rest) => (w, pList "ok" [toString rest.length, pMsg m])
     | _, _ => bad w "dec"
+  | .list [.atom "watchmode", slot, .atom "fresh"] =>
+    match slot.nat? with
+    | some slot => ({ w with uncounted := slot :: w.uncounted }, "(ok)")
+    | none => bad w "watchmode"
   | .list [.atom "usend", m, dest, oracle] =>
     match rMsg m, rOracle oracle, (match dest with | .atom "peer" => some Dest.peer | .atom "unreach" => some Dest.unreachable | _ => none) with
     | some m, some oracle, some dest =>
